@@ -21,6 +21,19 @@ Theorem fingerprint_covers_reachable :
 Proof. exact Proofs.fingerprint_covers_reachable. Qed.
 Print Assumptions fingerprint_covers_reachable.
 
+(** Two loads of identical project text produce function objects that differ only in identity (address, allocation
+    order): renaming the identities by any injective map leaves the fingerprint unchanged. *)
+Theorem fingerprint_independent_of_identities :
+  forall (f : N -> N), (forall a b, f a = f b -> a = b) ->
+  forall g x,
+    match fingerprint g x, fingerprint (ren_graph f g) (f x) with
+    | Done t1 _, Done t2 _ => t1 = t2
+    | OutOfFuel, OutOfFuel => True
+    | _, _ => False
+    end.
+Proof. exact Proofs.fingerprint_independent_of_identities. Qed.
+Print Assumptions fingerprint_independent_of_identities.
+
 (** non-vacuity: mutual recursion even <-> odd used by third (which also calls itself), target t *)
 Example mutual_recursion_example :
   let g := [(1, mkFn 101 1001 [4]); (2, mkFn 102 1002 [3]); (3, mkFn 103 1003 [2]); (4, mkFn 104 1004 [2; 4])] in
